@@ -3,6 +3,7 @@ package c10
 import (
 	"fmt"
 	"os"
+	"sync"
 	"testing"
 	"time"
 
@@ -46,6 +47,25 @@ func TestExplore(t *testing.T) {
 				fmt.Println(i, r.observe())
 			}
 		})
+	}
+	if os.Getenv("C10_EXPLORE") == "tcprace" {
+		for _, proto := range []string{"tcp", "Http1", "bolt", "boltpp"} {
+			run("refuse race "+proto, Setup{Proto: proto, Hosts: []string{"refuse"}, Thr: [4]uint32{0, 0, 0, 3}, GlobalMs: 200}, func(r *rig) {
+				r.startSampler()
+				for round := 0; round < 40; round++ {
+					var wg sync.WaitGroup
+					for i := 0; i < 16; i++ {
+						wg.Add(1)
+						go func() { defer wg.Done(); r.probeOnce("x") }()
+					}
+					wg.Wait()
+				}
+				time.Sleep(300 * time.Millisecond)
+				r.stopSampler()
+				fmt.Println("end", r.observe(), "neg:", r.negWhat)
+			})
+		}
+		return
 	}
 	run("pingpong oneway", Setup{Proto: "boltpp", Hosts: []string{"ok"}, Thr: [4]uint32{0, 0, 0, 1}, GlobalMs: 1000}, func(r *rig) {
 		x, _ := mesh.DialX("bolt", r.c.Addr)
